@@ -337,7 +337,8 @@ static void genHsSph(vh::Rng& g, const std::string& cls, double gapScale) {
 static void genSphSph(vh::Rng& g, const std::string& cls, double gapScale) {
     double r1 = g.range(0.2, 2), r2 = g.range(0.2, 2); Vec3 c1 = rndVec(g, 0.1, 3);
     double z = g.range(-1, 1), ph = g.range(0, 2*PI), s = std::sqrt(1 - z*z); Vec3 u(s*std::cos(ph), s*std::sin(ph), z);
-    double over = cls == "generic" ? g.range(-1, 1) * std::min(r1, r2) : gapScale;
+    // overlap amount from separated to almost concentric (one sphere containing the other's centre)
+    double over = cls == "generic" ? (g.coin() ? g.range(-1, 1) * std::min(r1, r2) : g.range(0, 0.97) * (r1 + r2)) : gapScale;
     Vec3 c2 = c1 + (r1 + r2 - over) * u;
     std::vector<double> v; push3(v, c1); push3(v, c2); v.push_back(r1); v.push_back(r2); caseSphSph(cls, v);
 }
